@@ -25,7 +25,7 @@ def LO():
 # ------------------------------------------------------------------------------------------ settings
 
 DEFAULT_ST = {"max_chol": 800, "fc_root": True, "fc_logprob": True, "fc_solves": True, "ciq": False,
-              "precond_size": 15, "min_precond": 2000}
+              "precond_size": 15, "min_precond": 2000, "max_root": 100}
 
 
 class SettingsStack:
@@ -50,6 +50,8 @@ class SettingsStack:
             cms.append(S.max_preconditioner_size(st["precond_size"]))
         if st["min_precond"] != DEFAULT_ST["min_precond"]:
             cms.append(S.min_preconditioning_size(st["min_precond"]))
+        if st.get("max_root", DEFAULT_ST["max_root"]) != DEFAULT_ST["max_root"]:
+            cms.append(S.max_root_decomposition_size(st["max_root"]))
         for c in cms:
             c.__enter__()
             self.stack.append(c)
@@ -66,7 +68,7 @@ class SettingsStack:
         return {"max_chol": S.max_cholesky_size.value(), "fc_root": S.fast_computations.covar_root_decomposition.on(),
                 "fc_logprob": S.fast_computations.log_prob.on(), "fc_solves": S.fast_computations.solves.on(),
                 "ciq": S.ciq_samples.on(), "precond_size": S.max_preconditioner_size.value(),
-                "min_precond": S.min_preconditioning_size.value()}
+                "min_precond": S.min_preconditioning_size.value(), "max_root": S.max_root_decomposition_size.value()}
 
 
 # ------------------------------------------------------------------------------------------ argument tensors
@@ -523,6 +525,23 @@ def valid(aspect, A, ans, tol, ctx=None):
         if k == "solve":
             rhs = ctx["rhs"]
             return close(A @ ans, rhs.expand_as(ans) if rhs.dim() == ans.dim() else rhs, tol * max(1.0, float(A.abs().max()))), "A x vs b"
+        if k == "solve_vec":
+            rhs = ctx["rhs"]
+            return (ans.shape == rhs.shape and close(A @ ans, rhs, tol * max(1.0, float(A.abs().max())))), "A x vs b (vector)"
+        if k == "solve_left":
+            ref = ctx["left"] @ torch.linalg.solve(A, ctx["rhs"])
+            return close(ans, ref, tol), "left A^-1 b"
+        if k == "matmul":
+            return close(dn(ans), A @ ctx["rhs"], tol), "A b"
+        if k == "inverse":
+            n_ = A.shape[-1]
+            return close(dn(ans) @ A, torch.eye(n_, dtype=A.dtype).expand_as(A),
+                         tol * max(1.0, float(torch.linalg.cond(A).max()))), "A^-1 A vs I"
+        if k == "root_inverse":
+            R = ctx["root"]
+            n_ = R.shape[-1]
+            return close(dn(ans) @ R, torch.eye(n_, dtype=R.dtype).expand_as(R),
+                         tol * max(1.0, float(torch.linalg.cond(R).max()))), "root^-1 root vs I"
         if k == "iqld":
             rhs = ctx["rhs"]
             iq, ld = ans
@@ -599,10 +618,16 @@ def aspects_of_key(ck):
             if up[0] == "bool":
                 t = bool(up[1])
             return [("chol", t)]
+        if s == "symeig":
+            # (evals, evecs) for eigenvectors=True, (evals, None) otherwise (_symeig's default)
+            vecs = [truthy(v_) for k_, v_ in kw if k_ == "eigenvectors"] or ([truthy(args[0])] if args else [False])
+            return [("eig", bool(vecs[0]))]
         return {"root_decomposition": [("root",)], "root_inv_decomposition": [("rootinv",)],
-                "diagonalization": [("eig", True)], "svd": [("svd",)], "symeig": [("eig", True)]}.get(s, [])
+                "diagonalization": [("eig", True)], "svd": [("svd",)], "inverse": [("inverse",)]}.get(s, [])
     if nm[1].endswith("to_dense"):
         return [("dense",)]
+    if nm[1].endswith(".inverse"):
+        return [("inverse",)]
     return []
 
 
@@ -750,6 +775,24 @@ class World:
             elif kind == "solve":
                 ctx["rhs"] = arg_tensor("rhs", q[1], n, self.batch(i))
                 r = op.solve(ctx["rhs"])
+            elif kind == "solve_vec":
+                ctx["rhs"] = arg_tensor("rhs", 1, n, ())[..., 0]          # 1-D right-hand side
+                r = op.solve(ctx["rhs"])
+            elif kind == "solve_left":
+                ctx["rhs"] = arg_tensor("rhs", q[1], n, self.batch(i))
+                ctx["left"] = _det(self.batch(i) + (2, n), 57)
+                r = op.solve(ctx["rhs"], ctx["left"])
+            elif kind == "linalg_solve":
+                ctx["rhs"] = arg_tensor("rhs", q[1], n, self.batch(i))
+                r = torch.linalg.solve(op, ctx["rhs"])
+            elif kind == "matmul":
+                ctx["rhs"] = arg_tensor("rhs", q[1], n, self.batch(i))
+                r = op.matmul(ctx["rhs"])
+            elif kind == "inverse":
+                r = op.inverse()
+            elif kind == "root_inverse":
+                ctx["root"] = dn(op.root)
+                r = op.root.inverse()
             elif kind == "logdet":
                 r = op.logdet()
             elif kind == "inv_quad_logdet":
@@ -932,7 +975,9 @@ def query_aspect(q):
         return ("chol", up)
     return {"root_decomposition": ("root",), "root_inv_decomposition": ("rootinv",), "diagonalization": ("eig", True),
             "svd": ("svd",), "eigh": ("eig", True), "eigvalsh": ("evals",), "solve": ("solve",), "logdet": ("logdet",),
-            "diagonal": ("diagonal",), "precond": ("precond",), "sample": ("sample",)}.get(k) or ("iqld", q[1], q[2])
+            "diagonal": ("diagonal",), "precond": ("precond",), "sample": ("sample",), "solve_vec": ("solve_vec",),
+            "solve_left": ("solve_left",), "linalg_solve": ("solve",), "matmul": ("matmul",), "inverse": ("inverse",),
+            "root_inverse": ("root_inverse",)}.get(k) or ("iqld", q[1], q[2])
 
 
 def truthy(v):
